@@ -306,8 +306,8 @@ namespace foonathan
             }
 
         private:
-            unsigned short derived_size_      = 0,
-                           derived_alignment_ = 0; // use unsigned short here to save space
+            // std::size_t like in allocator_polymorphic_deallocator, a narrower type truncates the size of big types
+            std::size_t derived_size_ = 0, derived_alignment_ = 0;
         };
     } // namespace memory
 } // namespace foonathan
